@@ -456,6 +456,9 @@ class _TorusDynamicsService(_DynamicsServiceBase):
         RuntimeError
             If no suitable complex eigenvalue is found in the monodromy matrix.
         """
+        # Imported here: hiten.system.torus imports this module
+        from hiten.system.torus import Torus
+
         # Get the cached grid
         grid = self.compute_grid(
             epsilon=epsilon,
